@@ -1,7 +1,7 @@
 (* Dispatch.v — single entry point of the executable model: one s-expression case
    in, one s-expression observation out.  Extracted to OCaml (ocaml/driver.ml) and
    evaluated by vm_compute in the per-run cases.v cross-check. *)
-From SE Require Import Base.Prelude Slots.SlotMapMachine Slots.SlotMachine Lang.LangMachine Parse.ParseMachine Group.GroupMachine Sem.EgMachine.
+From SE Require Import Base.Prelude Slots.SlotMapMachine Slots.SlotMachine Lang.LangMachine Parse.ParseMachine Group.GroupMachine Sem.EgMachine Explain.CheckMachine EGraph.ModelMachine.
 
 Definition dispatch (e : sexp) : sexp :=
   match e with
@@ -11,5 +11,8 @@ Definition dispatch (e : sexp) : sexp :=
   | Lst (Sym "c18" :: args) => run_c18 false false args
   | Lst (Sym "c10" :: args) => run_c10 args
   | Lst (Sym "eg" :: args) => run_eg 2 8 args
+  | Lst (Sym "chk" :: args) => run_chk args
+  | Lst (Sym "c01" :: args) => run_c01 args
+  | Lst (Sym "egm" :: args) => run_egm args
   | _ => Sym "unknown-case"
   end.
